@@ -255,4 +255,11 @@ Section ABF.
 
   Definition samples_in (b : idx) (S : list (idx * vec)) : list vec :=
     map snd (filter (fun s => idx_eqb (fst s) b) S).
+  (* number of attributed samples in bin b, and the sum of their k-th force components *)
+  Definition cnt_of (b : idx) (S : list (idx * vec)) : Z := Z.of_nat (length (samples_in b S)).
+  Fixpoint gsum (l : list T) : T := match l with [] => n0 O | x :: r => nadd O x (gsum r) end.
+  Definition fsum_of (k : nat) (b : idx) (S : list (idx * vec)) : T :=
+    gsum (map (fun v => vget v k) (samples_in b S)).
+  (* the trace of a history: the history zipped with what the model reports at each step *)
+  Definition trace_of (c : abf_cfg) (h : list abf_in) : trace := combine h (snd (abf_run c h)).
 End ABF.
